@@ -2,8 +2,8 @@
 import os
 from tools.py2lean import gen_c04
 
-LEAN_TARGETS = ["EasyFEAVerif.Props.C04"]
-PROPS_MODULES = ["EasyFEAVerif.Props.C04"]
+LEAN_TARGETS = ["EasyFEAVerif.Props.C04", "EasyFEAVerif.Props.C04Explicit"]
+PROPS_MODULES = ["EasyFEAVerif.Props.C04", "EasyFEAVerif.Props.C04Explicit"]
 TRUSTED_EXTRA = [
     "C04: linear-solver backends (scipy spsolve, cg, bicg, gmres, lgmres, lsq_linear) are assumed to return a solution of the system they are handed; their agreement and the residual are measured on the real code each run. pypardiso / PETSc / mpi4py are not installed and never exercised.",
     "C04: the glue model (Model/Constraints.lean) is hand-written and compared with the real dof lookup, Dirichlet vector, elimination solve and bordered Lagrange system in exact rationals",
